@@ -262,6 +262,57 @@ func c13do(b *node.Browser, kind, a, bb string, vals map[string]interface{}) (re
 		}
 		_, err = nodeutil.WriteJSON(sel)
 		return outcome(err)
+	case "jget", "jdel":
+		if c13twoMod == nil {
+			m, err := parser.LoadModuleFromString(nil, c13twoYang)
+			if err != nil {
+				return "PANIC:two-module-does-not-load"
+			}
+			c13twoMod = m
+		}
+		if kind == "jget" {
+			n, err := nodeutil.ReadJSON(c13twoDoc)
+			if err != nil {
+				return "error"
+			}
+			_, err = node.NewBrowser(c13twoMod, n).Root().GetValue(a)
+			return outcome(err)
+		}
+		var store map[string]interface{}
+		if err := json.Unmarshal([]byte(c13twoDoc), &store); err != nil {
+			return "error"
+		}
+		// (encoding/json turned the 64-bit value into a float)
+		store["w"].([]interface{})[0].(map[string]interface{})["u64"] = uint64(18446744073709551615)
+		root := node.NewBrowser(c13twoMod, nodeutil.ReflectChild(store)).Root()
+		sel, err := root.Find(a)
+		if err != nil {
+			return "error"
+		}
+		if sel == nil {
+			return "ok"
+		}
+		derr := sel.Delete()
+		if _, rerr := nodeutil.WriteJSON(root); rerr != nil {
+			return "PANIC:store_unreadable_after_delete:" + strings.ReplaceAll(short(rerr.Error()), " ", "_")
+		}
+		return outcome(derr)
+	case "modupsert":
+		// a schema of its own (a: module text) and a document (bb) written into a nodeutil.Node over maps and read back
+		m, err := parser.LoadModuleFromString(nil, a)
+		if err != nil {
+			return "error"
+		}
+		n, err := nodeutil.ReadJSON(bb)
+		if err != nil {
+			return "error"
+		}
+		root := node.NewBrowser(m, &nodeutil.Node{Object: map[string]interface{}{}}).Root()
+		if err := root.UpsertFrom(n); err != nil {
+			return "error"
+		}
+		_, err = nodeutil.WriteJSON(root)
+		return outcome(err)
 	case "sfind":
 		// a struct-backed store (nodeutil.Reflect over Go structs) whose list holds an entry with an empty key field
 		if c13seMod == nil {
@@ -635,6 +686,22 @@ func C13(c *core.Ctx) {
 					reqs = append(reqs, c13req{Kind: "jfind2", A: tgt + "?fc.range=" + url.QueryEscape(sel+"!"+win), Desc: "fc.range with a malformed or signed window"})
 				}
 			}
+		}
+		// schemas whose groupings use themselves: through a choice only (no data node in between), through a container
+		for _, sch := range [][2]string{
+			{`grouping g { choice ch { case a { leaf x { type string; } } case b { uses g; } } } container top { uses g; leaf o { type string; } }`, `{"top":{"x":"v"}}`},
+			{`grouping g { choice ch { case a { leaf x { type string; } } case b { uses g; } } } container top { uses g; leaf o { type string; } }`, `{"top":{"o":"v"}}`},
+			{`grouping g { leaf x { type string; } choice ch { case b { container again { uses g; } } case c { leaf y { type string; } } } } container top { uses g; }`, `{"top":{"x":"v","again":{"x":"w","y":"z"}}}`},
+			{`grouping g { leaf x { type string; } choice ch { leaf y { type string; } choice inner { uses g; } } } container top { uses g; }`, `{"top":{"x":"v"}}`},
+		} {
+			reqs = append(reqs, c13req{Kind: "modupsert", A: "module r { namespace \"urn:r\"; prefix r; revision 2020-01-01; " + sch[0] + " }", B: sch[1], Desc: "upsert under a schema with a recursive grouping"})
+		}
+		// GetValue of paths whose containers or entries are absent; Delete on selections of every kind of node
+		for _, p := range []string{"w=full/bi", "w=bare/c/y", "w=zz/k", "w=bare/c/l=1/n", "two=p,9/v", "c/in=1,true/k1", "nosuch/x", "w=half/c/cc/q", "w=full/c/l=2/n", "w=full/c/l=9/n", "w=full/an", "w=full/c2/z", "w=half/c2/z", "w", "w=full", "c"} {
+			reqs = append(reqs, c13req{Kind: "jget", A: p, Desc: "GetValue along a path with absent or non-leaf steps"})
+		}
+		for _, p := range []string{"w=full/bi", "w=full/ll", "w=full/c/y", "w=full/k", "w=full/c", "w=full", "w", "w=full/an", "w=half/c1", "w=full/c2", "w=full/c2/z", "two=p,1/three=x1,y1,1", "two=p,1/three=x1,y1,1/z", "c/in=1,true", "c/in=1,true/k2", "c", "w=full/c/l=1", "w=full/c/l=1/n", "w=full/c/l", "w=bare/c"} {
+			reqs = append(reqs, c13req{Kind: "jdel", A: p, Desc: "Delete on a selection of every kind of node"})
 		}
 		for _, key2 := range []string{"", "m", "b"} {
 			for _, p := range []string{"l", "l=a", "l=b", "l=", "l=zz", "l?where=v%3D5", "l=a/v"} {
